@@ -151,9 +151,19 @@ when_translated Gen.F128_Int_Round in
 theorem F128_Int_Round_eq (M P : W) (f : F) (hM : Mult M.toInt) :
     (Gen.F128_Int_Round M P f).data.toInt = F128.round M.toInt f.data.toInt := by
   have hM0 : M.toInt ≠ 0 := ne_of_gt hM.pos
-  fq_tie [Gen.F128_Int_Round, F128_Int_Trunc_eq _ _ _ hM, F128_Int_Add_eq, F128_Int_Sub_eq, F128_Int_Neg_eq,
-    F128_Multiplier_eq, F128_multiplier_eq, hM0, F128_Int_GreaterThan_eq, F128_Int_GreaterThanOrEqual_eq,
-    F128_Int_LessThan_eq, F128_Int_LessThanOrEqual_eq] [F128.round, F128.neg, F128.trunc]
+  have hpos := hM.pos
+  have hq := GenTie128.quo2 M.toInt hpos (by have := M.toInt_lt; have := M.le_toInt; simp only [fits128]; omega)
+  have hs := GenTie128.sdiv2 M hpos
+  first
+  | fq_tie [Gen.F128_Int_Round, F128_Int_Trunc_eq _ _ _ hM, F128_Int_Add_eq, F128_Int_Sub_eq, F128_Int_Neg_eq,
+      F128_Multiplier_eq, F128_multiplier_eq, hM0, F128_Int_GreaterThan_eq, F128_Int_GreaterThanOrEqual_eq,
+      F128_Int_LessThan_eq, F128_Int_LessThanOrEqual_eq] [F128.round, F128.neg, F128.trunc]
+  | -- a rewrite around one `split` helper (whole part, remainder) that halves the multiplier on the `int64`
+    (simp only [Gen.F128_Int_Round, gen_local, GenTie128.toInt_add, GenTie128.toInt_sub, GenTie128.toInt_mul,
+      GenTie128.toInt_neg, GenTie128.toInt_from64, GenTie128.ge_eq, GenTie128.le_eq, GenTie128.gt_eq, GenTie128.lt_eq,
+      GenTie128.toInt_div, GenTie128.data_ite, GenTie128.toInt_ite, F128_multiplier_eq, hM0, hs, ne_eq,
+      not_false_eq_true]
+     simp only [F128.round, F128.trunc, F128.neg, hq])
 
 /-! ## transported specifications -/
 
